@@ -3,6 +3,7 @@ import Req.Client.Url
 import Req.Driver.WireUtil
 import Req.Client.Merge
 import Req.H2.Fields
+import Req.H1.Origin
 /-! Driver lanes of C01. -/
 namespace Req.Driver.L.C01
 open Req.Proto
@@ -77,6 +78,26 @@ def laneValid : List String → String
       s!"port={encodeHex (Req.Url.removeEmptyPort v)} excl2={b01 (Req.H2.isExcluded v)} " ++
       s!"excl1={b01 (Req.H1.reqWriteExcludeHeader.contains v)} lacks={b01 (Req.H1.methodUsuallyLacksBody v)}"
     | none => "bad-op"
+  | _ => "bad-op"
+
+/-- `c01origin <wire>`: the independent Lean origin `parseRequestH1` on a byte stream: method,
+target, Host, the other header lines (lower-cased names, sorted; framing fields dropped), body,
+length of what is left. -/
+def laneOrigin : List String → String
+  | [w] =>
+    match decodeHex w with
+    | none => "bad-op"
+    | some wire =>
+      match Req.H1.Origin.parseRequestH1 wire with
+      | none => "none"
+      | some (v, rest) =>
+        let isF (n : Bytes) : Bool :=
+          n == Req.H1.Origin.sTE || n == Req.H1.Origin.sCL || n == Req.H2.sHostL
+        let hosts := v.fields.filterMap fun f => if Req.Ascii.lower f.1 == Req.H2.sHostL then some f.2 else none
+        let lines := (v.fields.filter fun f => !isF (Req.Ascii.lower f.1)).map fun f =>
+          Req.Ascii.lower f.1 ++ [58, 32] ++ f.2
+        s!"ok {encodeHex v.method} {encodeHex v.target} {encodeList hosts} " ++
+          s!"{encodeList (lines.mergeSort fun a b => Req.BStr.le a b)} {Wire.showBlob v.body} {rest.length}"
   | _ => "bad-op"
 
 /-- `c01parse <raw>`: `url.Parse` + `String()` + `RequestURI()`. -/
@@ -202,6 +223,7 @@ def lanes : List (String × (List String → String)) := [
   ("c01pipe", lanePipe),
   ("c01h1", laneH1),
   ("c01url", laneUrl),
+  ("c01origin", laneOrigin),
   ("c01valid", laneValid),
   ("c01ruri", laneRuri),
   ("c01parse", laneParse),
